@@ -708,15 +708,36 @@ func (w *origWalker) cell(a *ssa.Alloc) {
 					w.walk(st.Val)
 				}
 			}
-		case *ssa.Call:
-			// address passed to a call (e.g. xml.Unmarshal(body, &x)): the callee fills it
-			w.root(Root{Kind: "call", Val: a, Desc: calleeName(r) + "(&cell)", Call: r, Idx: -1})
-			found = true
 		}
+	}
+	for _, c := range escapesTo(a) {
+		// address passed to a call (e.g. xml.Unmarshal(body, &x)): the callee fills it
+		w.root(Root{Kind: "call", Val: a, Desc: calleeName(c) + "(&cell)", Call: c, Idx: -1})
+		found = true
 	}
 	if !found {
 		w.root(Root{Kind: "const", Val: a, Desc: "zero"})
 	}
+}
+
+// escapesTo: calls that receive the address of the cell (directly or boxed in an interface).
+func escapesTo(a ssa.Value) []*ssa.Call {
+	var out []*ssa.Call
+	refs := a.Referrers()
+	if refs == nil {
+		return nil
+	}
+	for _, r := range *refs {
+		switch r := r.(type) {
+		case *ssa.Call:
+			out = append(out, r)
+		case *ssa.MakeInterface:
+			out = append(out, escapesTo(r)...)
+		case *ssa.ChangeType:
+			out = append(out, escapesTo(r)...)
+		}
+	}
+	return out
 }
 
 func storesTo(addr ssa.Value) []*ssa.Store {
@@ -774,18 +795,14 @@ func (w *origWalker) load(addr ssa.Value, v ssa.Value) {
 				w.root(Root{Kind: "field", Val: v, Desc: fname})
 				w.walk(st.Val)
 			}
-			if !found {
-				// maybe filled by a callee receiving &cell
-				esc := false
-				for _, r := range *al.Referrers() {
-					if c, ok := r.(*ssa.Call); ok {
-						esc = true
-						w.root(Root{Kind: "call", Val: v, Desc: calleeName(c) + "(&cell)." + fname, Call: c, Idx: -1})
-					}
-				}
-				if !esc {
-					w.root(Root{Kind: "const", Val: v, Desc: "zero"})
-				}
+			// maybe filled by a callee receiving &cell
+			esc := false
+			for _, c := range escapesTo(al) {
+				esc = true
+				w.root(Root{Kind: "call", Val: v, Desc: calleeName(c) + "(&cell)", Call: c, Idx: -1})
+			}
+			if !found && !esc {
+				w.root(Root{Kind: "const", Val: v, Desc: "zero"})
 			}
 			return
 		}
